@@ -426,7 +426,7 @@ pub struct FsRun<'a> { pub ctx: &'a mut Ctx, pub focus: Focus }
 
 pub fn run(ctx: &mut Ctx, focus: Focus) {
     let cfgs = all_cfgs(ctx.tier_thorough);
-    let n_hist = match focus { Focus::C06 => ctx.n(90, 1200), _ => ctx.n(120, 3000) };
+    let n_hist = match focus { Focus::C06 => ctx.n(90, 500), _ => ctx.n(120, 900) };
     let mut rng = Rng::new(ctx.seed ^ (focus as u64) << 32);
     let mut drv = Drv::spawn();
     if drv.is_none() { ctx.out.count("driver-missing"); }
@@ -866,7 +866,11 @@ fn apply_op(w: &mut World, op: Op, rng: &mut Rng, free: usize, vd: &mut Verdicts
                     // "for which a directory slot exists": DOS 3.x reports a full catalog as DISK FULL, so the catalog
                     // capacity (7 entries per catalog sector: 15 sectors on 16-sector disks, 12 on 13-sector disks) is checked here
                     let slot = match fs { Fs::Dos33 => w.files.len() < 105, Fs::Dos32 => w.files.len() < 84, _ => true };
-                    if !dup && need != usize::MAX && cls == "full" && slot {
+                    // a ProDOS file is at most 128 index blocks x 256 blocks with a 24-bit end of file: beyond that the
+                    // refusal (reported as DISK FULL) is correct however much room there is
+                    let end_idx = r.chunks.keys().max().map(|m| m + 1).unwrap_or(0);
+                    let representable = match fs { Fs::Prodos => end_idx <= 32768 && r.eof < (1 << 24), _ => true };
+                    if !dup && need != usize::MAX && cls == "full" && slot && representable {
                         // a full sub-directory has to grow by one unit first: that is part of the file system's own overhead
                         let grow = if fs.has_dirs() && cp.contains('/') { 1 } else { 0 };
                         let fits = if fs == Fs::Pascal { false } else { need + grow <= free };
